@@ -6,7 +6,7 @@ import parsegen as PG
 RULE = ("expression trees (depth<=4, 0-3 numbered inputs, anonymous sources, operators) rendered in random mixes of "
         "f(x, y) / f x y / (f x) y, redundant parentheses, blanks, newlines, # comments and in-line annotations `e : T`; "
         "each rendering is parsed by the implementation (structure: unify=False over wildcard-typed operators) and by the model; "
-        "oracle: the parsed tree equals the tree that was rendered, and with `defaults=True` and fewer inputs supplied the tree has the same shape and the same sharing of source objects; typed half: see props/exprgen.typed_cases; "
+        "oracle: the parsed tree equals the tree that was rendered, and with `defaults=True` and fewer inputs supplied the tree has the same shape and the same sharing of source objects; a text with `-` parsed twice on one language shares no source object; typed half: see props/exprgen.typed_cases; "
         "non-trivial = at least two applications; distinct by text")
 ASSUMPTIONS = ["operators of the structural language have the wildcard type, so no application fails to type"]
 TRUSTED = ["harness/parsegen.py: renderer of trees to text and tree dump of the implementation's Expr objects"]
@@ -47,6 +47,8 @@ def run(ctx):
                         {"lang": spec.to_json(), "text": text, "inputs": ninputs, "want": want})
                 elif rep == 0 and ninputs >= 1:
                     defaults_case(ctx, lang, spec, text, ninputs, rng.randrange(0, ninputs))
+                elif rep == 0 and ninputs == 0 and "-" in text:
+                    reparse_case(ctx, lang, spec, text)
     try:
         from props import exprgen
     except Exception:
@@ -72,6 +74,30 @@ def identity_shape(e):
     return go(e)
 
 
+def reparse_case(ctx, lang, spec, text):
+    """`-` is a FRESH anonymous source: parsing the same text twice on the same language gives two expressions that share no source object"""
+    from transforge import expr as E
+    try:
+        e1 = lang.parse(text)
+        e2 = lang.parse(text)
+    except Exception:  # noqa
+        return
+    ctx.evaluations += 1
+    ctx.count("reparse_cases")
+
+    def sources(e):
+        if isinstance(e, E.Application):
+            return sources(e.f) + sources(e.x)
+        return [e] if isinstance(e, E.Source) else []
+    s1, s2 = sources(e1), sources(e2)
+    if any(a is b for a in s1 for b in s2):
+        ctx.fail(f"{text!r} parsed twice on the same language: the two expressions share a source object (`-` is not fresh)",
+            {"check": "reparse-shares-source"}, {"lang": spec.to_json(), "text": text, "inputs": 0, "reparse": True})
+    elif identity_shape(e1) != identity_shape(e2):
+        ctx.fail(f"{text!r} parsed twice on the same language gives {identity_shape(e1)} and then {identity_shape(e2)}",
+            {"check": "reparse-differs"}, {"lang": spec.to_json(), "text": text, "inputs": 0, "reparse": True})
+
+
 def defaults_case(ctx, lang, spec, text, ninputs, supplied):
     """`defaults=True`: a number beyond the supplied inputs stands for a source made on demand - the same number always for the same object.
     The tree must have the same shape, with the same sharing of source objects, as when every input is supplied"""
@@ -93,6 +119,16 @@ def defaults_case(ctx, lang, spec, text, ninputs, supplied):
 
 def replay(ctx, payload):
     inp = payload["input"]
+    if inp.get("reparse"):
+        spec = G.LangSpec([(n, v, p) for n, v, p in inp["lang"]])
+        ops = spec.build()
+        lang, aliases = PG.plain_language(spec, ops)
+        c = type("C", (), {"failures": [], "evaluations": 0, "count": lambda self, n, k=1: None,
+            "fail": lambda self, d, f, r: self.failures.append(d)})()
+        reparse_case(c, lang, spec, inp["text"])
+        for d in c.failures:
+            print(d)
+        return not c.failures
     if "supplied" in inp:
         spec = G.LangSpec([(n, v, p) for n, v, p in inp["lang"]])
         ops = spec.build()
